@@ -26,7 +26,16 @@ from sim.props.ahbcommon import (
     shrink_validation,
     summarise_validation,
 )
-from sim.props.common import LIVENESS_ERRORS, base_verdict, clone, fail, liveness_verdict, strip_msg
+from sim.props.common import (
+    LIVENESS_ERRORS,
+    base_verdict,
+    clone,
+    fail,
+    is_exception,
+    liveness_verdict,
+    same_outcome,
+    strip_msg,
+)
 from sim.runner import pristine
 from sim.world import run_requests
 
@@ -185,11 +194,11 @@ def _judge(request, outcome, evaluations, verdict):
         probes["pruned_nodes"] = probes.get("pruned_nodes", 0) + sum(1 for _ in walk(op["ahb"])) - len(got["ok"])
     else:
         got = outcome
-        if outcome.get("exc") == "NotImplementedError":
+        if is_exception(outcome, "NotImplementedError"):
             verdict["probes"]["not_implemented_runs"] = verdict["probes"].get("not_implemented_runs", 0) + 1
     if not op["soll"]:
         verdict["probes"]["soll_false_runs"] = verdict["probes"].get("soll_false_runs", 0) + 1
-    if got == expected:
+    if same_outcome(got, expected):
         return
     # classify the disagreement so that different defects get different fingerprints
     if "ok" in got and "ok" in expected:
